@@ -73,34 +73,35 @@ inductive BhLoopExit where
   | overflow (s : BhLoop)
   | done (s : BhLoop) (hasChar : Bool) (rawCh : Option UInt8)
 
+/-- rs: the run tracking of the `if normalize { … }` block for a character that is kept
+    (the `continue` case is handled in `bhLoop`): same run goes on, or a new run starts and a
+    finished maximal run is reported -/
+def bhTrack (normalize : Bool) (curr : UInt8) (s : BhLoop) : BhLoop :=
+  if normalize then
+    if curr == s.prev then { s with seq := s.seq + 1 }
+    else
+      let reports := if s.seq = MAX_SEQUENCE_SIZE
+        then s.reports ++ [(s.seqStart, s.index - s.seqStartIn)] else s.reports
+      { s with reports := reports, seq := 0, seqStart := s.len, seqStartIn := s.index, prev := curr }
+  else s
+
 /-- rs: the `loop { raw_ch = iter.next(); … }` of `parse_block_hash_from_bytes_internal`.
     `n` = capacity, `checkLen` = the `#[cfg(not(feature = "strict-parser"))] if len >= N` test is
     compiled in, `limitRaw` = flag added by the F1 repair. -/
 def bhLoop (n : Nat) (normalize limitRaw checkLen : Bool) : List UInt8 → BhLoop → BhLoopExit
   | [], s => .done s false none
   | ch :: rest, s =>
-    let bch := b64Index ch
-    if bch == b64Invalid then .done s true (some ch)
+    let curr := b64Index ch
+    if curr == b64Invalid then .done s true (some ch)
+    else if checkLen && limitRaw && s.index ≥ n then .overflow s
+    else if normalize && curr == s.prev && s.seq + 1 ≥ MAX_SEQUENCE_SIZE then
+      -- `seq = MAX_SEQUENCE_SIZE; index += 1; continue;`
+      bhLoop n normalize limitRaw checkLen rest { s with seq := MAX_SEQUENCE_SIZE, index := s.index + 1 }
     else
-      let curr := bch
-      if checkLen && limitRaw && s.index ≥ n then .overflow s
-      else
-        -- `if normalize { … }`: either `continue` (skip = true) or fall through with updated state
-        let (skip, s) :=
-          if normalize then
-            if curr == s.prev then
-              if s.seq + 1 ≥ MAX_SEQUENCE_SIZE then
-                (true, { s with seq := MAX_SEQUENCE_SIZE, index := s.index + 1 })
-              else (false, { s with seq := s.seq + 1 })
-            else
-              let reports := if s.seq = MAX_SEQUENCE_SIZE
-                then s.reports ++ [(s.seqStart, s.index - s.seqStartIn)] else s.reports
-              (false, { s with reports := reports, seq := 0, seqStart := s.len, seqStartIn := s.index, prev := curr })
-          else (false, s)
-        if skip then bhLoop n normalize limitRaw checkLen rest s
-        else if checkLen && s.len ≥ n then .overflow s
-        else bhLoop n normalize limitRaw checkLen rest
-              { s with bh := s.bh.set s.len curr, len := s.len + 1, index := s.index + 1 }
+      let s := bhTrack normalize curr s
+      if checkLen && s.len ≥ n then .overflow s
+      else bhLoop n normalize limitRaw checkLen rest
+            { s with bh := s.bh.set s.len curr, len := s.len + 1, index := s.index + 1 }
 
 /-- rs: algorithms.rs `parse_block_hash_from_bytes_internal::<_, N>` -/
 def parseBlockHash (cfg : Cfg) (n : Nat) (bh : List UInt8) (normalize limitRaw : Bool)
